@@ -12,6 +12,7 @@ A graph is a list of [s, p, o] of such terms.
 from __future__ import annotations
 
 import io as io_mod
+import re
 import logging
 import os
 import warnings
@@ -1878,11 +1879,13 @@ TS_BINDS = [None, None, [["ex", "http://e/"]], [["", "http://e/"], ["ns", "http:
 def c_tterm(x):
     if x[0] == "I":
         return f"(TIri {cstr(x[1])})"
+    if x[0] == "B":
+        return f"(TBn {cstr(x[1])})"
     return f"(TLit {cstr(x[1])} {copt(x[2], cstr)} {copt(x[3], cstr)})"
 
 
 def c_ttriple(t):
-    return ctuple(cstr(t[0][1]), cstr(t[1][1]), c_tterm(t[2]))
+    return ctuple(c_tterm(t[0]), cstr(t[1][1]), c_tterm(t[2]))
 
 
 class TtlStmt(Suite):
@@ -1916,13 +1919,26 @@ class TtlStmt(Suite):
         return ["L", lex, None, rng.choice(["http://e/dt", XSD + "string", "http://e/ns#dt", "urn:x:dt", XSD + "token2", "http://e/dt."])]
 
     def gen(self, rng, i):
-        subs = rng.sample(TS_IRIS, rng.choice([1, 1, 2, 3]))
+        subs = [["I", u] for u in rng.sample(TS_IRIS, rng.choice([1, 1, 2, 3]))]
+        # blank nodes that are written as labels: every one is referenced (as an object) at least twice
+        bns = [["B", x] for x in rng.sample(["b1", "b2", "N0af3", "x-1", "a.b", "b_2"], rng.choice([0, 0, 1, 2]))]
         g, seen = [], set()
-        for _ in range(rng.choice([1, 2, 3, 4, 6])):
-            t = [["I", rng.choice(subs)], ["I", rng.choice(TS_PREDS[:4] if rng.random() < 0.7 else TS_PREDS)], self.gen_obj(rng)]
+
+        def add(t):
             if repr(t) not in seen:
                 seen.add(repr(t))
                 g.append(t)
+
+        def pred():
+            return ["I", rng.choice(TS_PREDS[:4] if rng.random() < 0.7 else TS_PREDS)]
+        for _ in range(rng.choice([1, 2, 3, 4, 6])):
+            add([rng.choice(subs + bns), pred(), self.gen_obj(rng)])
+        for b in bns:
+            refs = 0
+            while refs < 2:
+                before = len(g)
+                add([rng.choice(subs + bns), pred(), b])
+                refs += len(g) - before
         return {"graph": g, "bind": rng.choice(TS_BINDS)}
 
     _memo = {}
@@ -1944,26 +1960,40 @@ class TtlStmt(Suite):
             self._memo[k] = res
             return res
 
-        def ab(x):
+        def ab(x, parsed=False):
             if isinstance(x, Literal):
                 return ["L", str.__str__(x), None if x.language is None else str.__str__(x.language),
                         None if x.datatype is None else str.__str__(x.datatype)]
+            if isinstance(x, BNode):
+                lab = str.__str__(x)
+                if parsed:
+                    # the Turtle reader renames the k-th distinct _:label of the document to <letter><32 hex digits>b<k>;
+                    # the model keeps the label, so the document's own label is put back here (renaming is C12's subject)
+                    m = re.match(r"^[a-z][0-9a-f]{32}b([0-9]+)$", lab)
+                    k = int(m.group(1)) if m else 0
+                    lab = doc_labels[k - 1] if 0 < k <= len(doc_labels) else "?" + lab
+                return ["B", lab]
             return ["I", str.__str__(x)]
+        doc_labels = []
+        for m_ in re.finditer(r"(?:^|[ \n])_:([^ \n,]+)", text):
+            if m_.group(1) not in doc_labels:
+                doc_labels.append(m_.group(1))
         ns = [[str(a), str.__str__(b)] for a, b in sorted(ser.namespaces.items())]   # the header, before any further query
         plan = []
         for s_ in ser.orderSubjects():
             props = ser.buildPredicateHash(s_)
-            plan.append([str.__str__(s_), [[str.__str__(p_), [ab(o) for o in props[p_]]] for p_ in ser.sortProperties(props)]])
+            plan.append([ab(s_), [[str.__str__(p_), [ab(o) for o in props[p_]]] for p_ in ser.sortProperties(props)]])
         q = []
         iris = set()
         for s_, plist in plan:
-            iris.add((False, s_))
+            if s_[0] == "I":
+                iris.add((False, s_[1]))
             for p_, os in plist:
                 iris.add((True, p_))
                 for o in os:
                     if o[0] == "I":
                         iris.add((False, o[1]))
-                    elif o[3] is not None:
+                    elif o[0] == "L" and o[3] is not None:
                         iris.add((False, o[3]))
         for verb, u in sorted(iris):
             if u == NIL or (verb and u == TYPE):
@@ -1975,8 +2005,8 @@ class TtlStmt(Suite):
         # read the text back with rdflib's own parser
         try:
             g2 = Graph().parse(data=text, format="turtle")
-            got = {json.dumps([ab(x) for x in t]) for t in g2}
-            want = [[["I", s_], ["I", p_], o] for s_, plist in plan for p_, os in plist for o in os]
+            got = {json.dumps([ab(x, True) for x in t]) for t in g2}
+            want = [[s_, ["I", p_], o] for s_, plist in plan for p_, os in plist for o in os]
             back = [t for t in want if json.dumps(t) in got]
             extra = sorted(got - {json.dumps(t) for t in want})
             back += [json.loads(x) for x in extra]
@@ -2000,7 +2030,7 @@ class TtlStmt(Suite):
         a = self.analyse(case)
         if "error" in a:
             a = {"plan": [], "q": [], "ns": []}
-        plan = clist(ctuple(cstr(s_), clist(ctuple(cstr(p_), clist(c_tterm(o) for o in os)) for p_, os in plist)) for s_, plist in a["plan"])
+        plan = clist(ctuple(c_tterm(s_), clist(ctuple(cstr(p_), clist(c_tterm(o) for o in os)) for p_, os in plist)) for s_, plist in a["plan"])
         q = clist(ctuple(ctuple(cbool(v), cstr(u)), ctuple(cstr(pre), cstr(loc))) for v, u, pre, loc in a["q"])
         ns = clist(ctuple(cstr(x), cstr(y)) for x, y in a["ns"])
         gtr = clist(c_ttriple(t) for t in case["graph"])
@@ -2038,7 +2068,9 @@ TRUSTED = [
     "(codecs.StreamReader) is not - binary sources are exercised by conformance only (nt_text documents read from BytesIO, "
     "roundtrip cases through real files)",
     "K3: json.dumps / json.loads of a list of six str (CPython or orjson) is not modelled; the model is the six strings",
-    "K4 statement layer (coq/Codec/TurtleStmt.v): the plan (orderSubjects / buildPredicateHash / sortProperties incl. Python's "
+    "K4 statement layer (coq/Codec/TurtleStmt.v): blank nodes only in the label form _:id (which blank nodes are written as "
+    "labels is part of the observed plan; [ ] and ( ) are not modelled); the model keeps the label, rdflib's Turtle reader "
+    "renames the k-th distinct label of a document to <letter><32 hex>b<k> and harness ttl_stmt maps it back before comparing; the plan (orderSubjects / buildPredicateHash / sortProperties incl. Python's "
     "ordering of terms), the prefixed-name decisions getQName -> NamespaceManager.compute_qname / split_uri and the final prefix "
     "table are INPUTS observed from the serialiser under test by harness ttl_stmt (the theorems quantify over all of them); that "
     "the plan covers the graph is checked per case, not proved. The reader model of that layer is a reader for the writer's "
@@ -2066,7 +2098,8 @@ ASSUMPTIONS = [
     "hext_row: if the reader under test scopes blank-node labels to the document (fresh BNodes), labels are compared as "
     "'function of the label computed from the column' instead of literally (HextRow.relabel)",
 ]
-RULE = ("ttl_stmt: graphs of 1-6 triples without blank nodes over 23 IRIs (rdf:nil, rdf:type, IRIs with and without a "
+RULE = ("ttl_stmt: graphs of 1-6 triples over 23 IRIs and 0-2 blank nodes, each referenced at least twice so that the "
+        "serialiser writes it as a label _:id (labels with '-', '.', '_'); 23 IRIs (rdf:nil, rdf:type, IRIs with and without a "
         "prefixed form), 12 predicates, literals over the special alphabet with languages, custom / xsd:string datatypes, bare "
         "integers and booleans, 7 prefix-binding sets (empty prefix, '_' prefix, a prefix colliding with rdf); ttl_islist: list "
         "cells with cyclic / shared / odd tails; nt_text / ttl_string: all strings of length <= 2 over the 14-character alphabet first, then random triples, escape "
